@@ -87,10 +87,12 @@ Definition num1 : str := ["_"; "n"; "u"; "m"; "1"]%char.
 
 (* add_to_dict: the key is the template's name; if that key is taken by a DIFFERENT dict the key becomes
    <name>_num1 — get_unique_label is called with all counters 0, so it is _num1 every time, and whatever was
-   stored under <name>_num1 before is overwritten (D33) *)
+   stored under <name>_num1 before is overwritten (D33).  `!=` on dicts ignores the order of keys (entry_eqb); two
+   structurally identical dicts are equal in particular (entry_eqs; implied by entry_eqb for lists that are Python
+   dicts, i.e. have unique keys) *)
 Definition add_to_dict (name : str) (d : entry) (st : store) : str * store :=
   match assoc name st with
-  | Some d' => if entry_eqb d' d then (name, set_assoc name d st)
+  | Some d' => if entry_eqs d' d || entry_eqb d' d then (name, set_assoc name d st)
                else let k := name ++ num1 in (k, set_assoc k d st)
   | None => (name, set_assoc name d st)
   end.
@@ -249,6 +251,16 @@ Definition const_overrides (c : circ) : bool := forallb (fun nd => forallb const
 (* representation invariant of Python dicts: keys are unique *)
 Definition op_wf (ou : opT * upd) : bool := nodupb (map fst (o_vars (fst ou))) && nodupb (map fst (snd ou)).
 Definition dicts_wf (c : circ) : bool := forallb (fun nd => forallb op_wf (n_ops nd)) (all_nodes c).
+
+(* D36 (not a defect of dump/load, but exposed by every round trip): from_yaml returns ONE template object per key, and
+   two edges between the same source and target variable that carry the same EdgeTemplate OBJECT are compiled into a
+   broken run function.  The denotation does not see object identity; this guard delimits where "equal denotation =>
+   equal dynamics" was observed to fail. *)
+Definition bar : str := ["|"%char].
+Definition tpl_edge_keys (pre : str) (l : list edgeT) : list str :=
+  flat_map (fun e => match ed_tpl e with Some t => [pre ++ ed_src e ++ bar ++ pre ++ ed_tgt e ++ bar ++ n_name t] | None => [] end) l.
+Definition no_parallel_tpl_edges (c : circ) : bool :=
+  nodupb (flat_map (fun kf => tpl_edge_keys (fst kf ++ slash) (f_edges (snd kf))) (c_subs c) ++ tpl_edge_keys [] (c_edges c)).
 
 Definition WFy (c : circ) : bool := dicts_wf c && no_rename c && const_overrides c.
 
